@@ -65,7 +65,10 @@ def run_program(inst, mode):
             try:
                 r_vm, _ = joint.vm_run(linked, _entry(inst), dict(cargs), {}, [])
                 idx0 = wasmref.export_index(cm, _entry(inst))
+                wasmref.WRAPPED = False
                 out0 = wasmref.call(cm, idx0, [cargs[n] for _, n in f.params])
+                if wasmref.WRAPPED and "wide-uint" not in inst.get("tags", []):
+                    continue            # an intermediate left the 32-bit range: outside the domain on which values are compared
             except (ZeroDivisionError, wasmref.Trap, wasmref.Unmodelled, KeyError):
                 continue
             except Exception as e:  # noqa: BLE001
@@ -314,6 +317,16 @@ def replay(spec):
             wa = [cargs[n] for _, n in f.params]
             if "wide-uint" in inst.get("tags", []):
                 wa = [a - 2 ** 32 if a >= 2 ** 31 else a for a in wa]
+            if "wide-uint" not in inst.get("tags", []):
+                # values are compared on the domain where no 32-bit intermediate wraps: inputs outside it are not counterexamples
+                try:
+                    cm = wasmref.decode(list(data))
+                    wasmref.WRAPPED = False
+                    wasmref.call(cm, wasmref.export_index(cm, _entry(inst)), list(wa))
+                    if wasmref.WRAPPED:
+                        return None
+                except Exception:  # noqa: BLE001 -- traps etc. are judged below on the real engine
+                    pass
             r_w = wasmfam.wasmtime_call(data, _entry(inst), wa)
         except Exception as e:  # noqa: BLE001
             return dict(source=src, args=cargs, vm=r_vm, wasm_trap=str(e).splitlines()[0][:120])
